@@ -1,3 +1,4 @@
+import Mrpro.Lemmas.OpMatrixL
 import Mrpro.Model.Algebra
 import Mrpro.Model.Ops
 import Mrpro.Lemmas.Basic
@@ -96,5 +97,33 @@ theorem matLeaf_refines (n : Nat) (A : Nat → Nat → K) :
     LeafRefines n (fun l => matLeafFwd n (A l)) (fun l => matLeafAdj n (A l))
       (fun l => matVec n (A l)) (fun l => matVecH n n (A l)) :=
   ⟨(M.matLeaf_refines n A).1, (M.matLeaf_refines n A).2.1, (M.matLeaf_refines n A).2.2.1, (M.matLeaf_refines n A).2.2.2⟩
+
+/-! ### Operator matrices (`LinearOperatorMatrix`): `M.OpMat` mirrors the class line by line (construction, `@`, `+`, scaling by
+scalars / tensors / sequences, `.H`, indexing, `&`, `|`, `from_diagonal`, `forward`, `adjoint`, including what raises), `M.MExpr` are
+the programs a user can write, `M.denM / denHM` the plain block-matrix semantics without any object graph or shortcut -/
+section OperatorMatrices
+variable {K : Type} [CommRing K] [StarRing K] [DecidableEq K]
+variable (Lf La : Nat → (Nat → K) → (Nat → K))
+
+/-- every operator-matrix program that the library accepts evaluates, on every tuple of inputs, to its block-matrix semantics -/
+theorem opmatrix_forward (hf : ∀ i, M.IsLin' (Lf i)) (ha : ∀ i, M.IsLin' (La i)) (e : M.MExpr K) (A : M.OpMat K)
+    (h : M.buildM e = some A) (xs : List (Nat → K)) (hx : xs.length = A.ncols) (hnd : A.ncols ≠ 0 ∨ A.nrows = 0) :
+    A.fwd Lf La xs = some (M.denM Lf La e xs) := M.fwdM_buildM_eq_denM Lf La hf ha e A h xs hx hnd
+
+/-- … and so does its adjoint -/
+theorem opmatrix_adjoint (hf : ∀ i, M.IsLin' (Lf i)) (ha : ∀ i, M.IsLin' (La i)) (e : M.MExpr K) (A : M.OpMat K)
+    (h : M.buildM e = some A) (ys : List (Nat → K)) (hy : ys.length = A.nrows) (hnd : A.ncols ≠ 0 ∨ A.nrows = 0) :
+    A.adj Lf La ys = some (M.denHM Lf La e ys) := M.adjM_buildM_eq_denHM Lf La hf ha e A h ys hy hnd
+
+/-- the library accepts a program exactly when its shapes fit (syntactic shape function), and builds a rectangular matrix of
+that shape -/
+theorem opmatrix_shapes (e : M.MExpr K) :
+    ((M.buildM e).isSome ↔ (M.shapeM e).isSome) ∧ ∀ A, M.buildM e = some A → A.WF ∧ M.shapeM e = some A.shape :=
+  ⟨M.buildM_isSome_iff e, fun A h => ⟨M.buildM_WF e A h, M.buildM_shape e A h⟩⟩
+
+/-- applying a well-formed matrix raises exactly for a wrong number of inputs or for the degenerate `r×0` shape -/
+theorem opmatrix_forward_rejects {A : M.OpMat K} (hA : A.WF) (xs : List (Nat → K)) :
+    A.fwd Lf La xs = none ↔ xs.length ≠ A.ncols ∨ (A.ncols = 0 ∧ A.nrows ≠ 0) := M.OpMat.fwd_eq_none_iff Lf La hA xs
+end OperatorMatrices
 
 end C04
